@@ -1,4 +1,4 @@
-"""C02 -- occurrence finding is exact (structural clauses R02.1-R02.21)."""
+"""C02 -- occurrence finding is exact (structural clauses R02.1-R02.22)."""
 from __future__ import annotations
 
 import ast
@@ -33,6 +33,7 @@ EXPLANATION = (
     "the right binding is otherwise not decided."
     ' R02.15 (=R01.11): `__init__` is the call target only of a class.'
 )
+EXPLANATION += ' R02.22: line/column pairs (see R01.17).'
 EXPLANATION += " R02.19: identifier characters are the interpreter's.  R02.20 (=R15.17): walrus targets in comprehensions.  R02.21: header expressions of def / class are evaluated in the parent scope."
 EXPLANATION += ' R02.18: a `col_offset`/`end_col_offset` of an AST node (UTF-8 bytes) reaches a character offset only through codeanalyze.column_to_offset; it is otherwise only compared, or is the start column of a node tested to be a statement.'
 ASSUMPTIONS = ["re alternation is ordered (leftmost position, first alternative wins)",
@@ -119,6 +120,9 @@ def check(ctx, res) -> None:
 
     walrus_in_comprehension_rule(ctx, res, "R02.20")
     header_expression_scope_rule(ctx, res, "R02.21")
+    from .common import position_pair_rule
+
+    position_pair_rule(ctx, res, "R02.22", ("rope.refactor.occurrences", "rope.refactor.functionutils", "rope.base.evaluate", "rope.refactor.patchedast", "rope.base.codeanalyze"))
     identifier_char_rule(ctx, res, "R02.19", ("rope.refactor.occurrences", "rope.base.worder", "rope.base.evaluate"), occurrences=True)
 
 
